@@ -851,7 +851,7 @@ func (g *Gen) sError() []Stmt {
 
 func (g *Gen) sPcall() []Stmt {
 	ok, e := g.fresh("ok"), g.fresh("e")
-	body := g.funcBody(nil, false, g.inCo > 0)
+	body := g.funcBody(nil, false, g.inCo > 0 && !g.o.NoYieldInPcall)
 	if g.chance(2) {
 		// make sure something fails sometimes
 		g.errSite = false
